@@ -1,40 +1,17 @@
 package main
 
 import (
-	"bytes"
 	"fmt"
 
-	"github.com/gopacket/gopacket"
-	"github.com/gopacket/gopacket/layers"
 	"verif/harness/corpus"
-	"verif/harness/vh"
 )
 
 func main() {
-	for _, f := range corpus.Load() {
-		if f.Name != "radiotap_test.go:testPacketRadiotap3#4" {
-			continue
-		}
-		d := append([]byte(nil), f.Data...)
-		d[7] ^= 1 << 0
-		for bit := 0; bit < 8; bit++ {
-			d := append([]byte(nil), f.Data...)
-			d[7] ^= 1 << uint(bit)
-			orig := append([]byte(nil), d...)
-			p1 := gopacket.NewPacket(d, layers.LayerTypeRadioTap, gopacket.NoCopy)
-			same := bytes.Equal(orig, d)
-			p2 := gopacket.NewPacket(d, layers.LayerTypeRadioTap, gopacket.NoCopy)
-			a, b := vh.Render(p1.Layers()[0]), vh.Render(p2.Layers()[0])
-			fmt.Println(bit, "input intact:", same, "digest equal:", a == b)
-			if a != b {
-				for i := range a {
-					if i >= len(b) || a[i] != b[i] {
-						fmt.Println(a[max(0, i-80):min(len(a), i+80)])
-						fmt.Println(b[max(0, i-80):min(len(b), i+80)])
-						break
-					}
-				}
-			}
-		}
+	fx := corpus.Load()
+	cs := corpus.TrailingLengthCases(fx, 12)
+	by := map[string]int{}
+	for _, c := range cs {
+		by[c.First.String()]++
 	}
+	fmt.Println(len(fx), len(cs), by)
 }
